@@ -149,7 +149,7 @@ pub fn run_c03(case: &Case) -> Outcome {
             return out;
         }
         let mut brancher = make_brancher(&cfg.br, &b.solver, &b.xs);
-        let mut t = Budget::for_model(m);
+        let mut t = Budget::for_iteration(m, &cfg.opts);
         let mut yielded: Vec<Vec<i64>> = vec![];
         // first (possibly partial) iteration
         let mut finished = false;
@@ -198,7 +198,7 @@ pub fn run_c03(case: &Case) -> Outcome {
             out.count("restarted_iterations", 1);
             // second iteration with a fresh brancher on the same solver
             let mut brancher2 = make_brancher(&cfg.br, &b.solver, &b.xs);
-            let mut t2 = Budget::for_model(m);
+            let mut t2 = Budget::for_iteration(m, &cfg.opts);
             let mut it = b.solver.get_solution_iterator(&mut brancher2, &mut t2);
             loop {
                 match it.next_solution() {
